@@ -12,12 +12,18 @@ PARALLEL = 16
 CASE_TIMEOUT_S = 60
 RULE = ("exhaustive: every table type (every bnpdataclass of bionumpy.datatypes whose field types are supported + dynamically made "
         "classes covering string, identifier, int, float, bool, Optional, list-of-int, encoded, strand and nested-table columns) "
-        "x 0..3 rows x every single operation of a fixed list (int-list / negative / slice / mask indexing, concatenate on either "
-        "side incl. empty operands, sort_by each sortable field, replace each field, add_fields, invalid index / mask / length) "
-        "x every final conversion (tolist, iteration, todict/from_dict, pandas round trip, from_entry_tuples); then seeded random "
-        "programs of 2-6 operations on 0..12 rows; rows<->table round trips (incl. no rows, wrong width); constructions with a "
-        "column of the wrong length / undecodable content. sort_by orders numeric fields by value and text fields as byte strings. Non-trivial = >= 2 ops on a table with >= 2 column kinds, or an empty "
-        "/ single-row operand")
+        "x 0..3 rows x every single operation of a fixed list (int-list / negative / slice / mask indexing, masks from "
+        "field == / != / isin, concatenate on either side incl. empty operands, sort_by each sortable field, replace each field, "
+        "add_fields, invalid index / mask / length) x every final conversion (tolist, iteration, todict/from_dict, pandas round "
+        "trip, from_entry_tuples); the four view makers (t[[2,0,1]], t[mask], t[1:], t[::-1]) x every operation with nothing "
+        "read in between; seeded random programs of 2-6 operations on 0..12 rows (half of them on fresh views); rows<->table "
+        "round trips (incl. no rows, wrong width); every field kind x every argument form of the constructor and every "
+        "argument form of add_fields without a type map (both tabulated into Gen/C19.lean); encoded data in another alphabet "
+        "around the first differing letter into construction / replace / add_fields; sort_by text keys (prefix relations, "
+        "equal-length keys in alphabets whose code order is not the letter order, one-letter rows, one 500 kB row); two "
+        "add_fields calls with different types; nested classes to depth 3 through dict and pandas; narrow_type, "
+        "dynamic_concatenate, apply_to_npdataclass; history pairs. sort_by orders numeric fields by value and text fields as "
+        "byte strings. Non-trivial = >= 2 ops on a table with >= 2 column kinds, or an empty / single-row operand")
 EXHAUSTIVE = {"quick": False, "thorough": False}
 MODEL_OPS = {"program", "roundtrip", "dict"}
 ASSUMPTIONS = [
@@ -29,14 +35,16 @@ ASSUMPTIONS = [
 TRUSTED_EXTRA = ["cell contents are compared as Python values (str / int / float bit pattern / bool / list / nested tuple)"]
 MANIFEST = {
     "text": "Lean 4 theorems over a column-major table model (any cell type, any size): every operation and every finite program "
-            "preserves 'all columns equally long' (inv); indexing, boolean masking, concatenation, sort_by (numeric fields by "
+            "preserves 'all columns equally long' (inv); indexing, boolean masking, masks from field comparisons, concatenation, sort_by (numeric fields by "
             "value, text fields as byte strings), replace and add_fields act on whole rows (toRows (op t) = op_rows (toRows t)); "
-            "sort_by yields a permutation of the rows with non-decreasing key and never fails on an existing field; "
+            "sort_by yields a permutation of the rows with non-decreasing key, is stable and idempotent and never fails on an "
+            "existing field; take/mask/replace raise exactly when (none_iff); t[iy][ix] = t[iy[ix]], t[range] = t, concat is "
+            "associative; "
             "rows->table->rows and table->rows->table are identities (zip(*.) twice), including the empty table; "
             "from_dict(todict(t)) = t for arbitrarily nested table fields (dotted keys split at the first dot, level by level; "
             "needs dot-free distinct field names, refuted otherwise). Typed construction: the dispatch of "
             "_implicit_format_conversion is re-tabulated from the running code on every run (10 field kinds x 19 argument forms "
-            "-> class of the stored column or raise, Gen/C19.lean) and the kernel re-checks 'converts to the declared type or "
+            "-> class of the stored column or raise; add_fields type inference x 14 forms; Gen/C19.lean) and the kernel re-checks 'converts to the declared type or "
             "raises' over the whole table, except the explicitly listed cells of the recorded findings. Correspondence: the real "
             "classes of bionumpy.datatypes and dynamically made ones with every column kind, 0..N rows, single operations "
             "exhaustively and random programs, nested classes up to depth 3, against the Lean model, the Lean row-level spec and a "
@@ -481,6 +489,13 @@ def oracle(c):
                     walk(sub, prefix + nm + ".")
         walk(c["schema"], "")
         return {"keys": keys, "leaves": list(range(cnt[0])), "roundtrip": True}
+    if c["op"] == "util":
+        if c["what"] == "narrow":
+            return {"text": [c["text"]], "alpha": True} if c["ok"] else {"err": "raise"}
+        seeds = [5 + i for i in range(c["n"])]
+        if c["what"] == "dyncat":
+            return {"rows": [[s_, s_] for s_ in seeds]}
+        return {"rows": [[s_ + 1, s_] for s_ in seeds], "operand": [[s_, s_] for s_ in seeds]}
     if c["op"] == "infer_cell":
         return {"natural_class": True}
     if c["op"] == "construct_cell":
@@ -757,6 +772,13 @@ def cases(tier, rng):
         return out
     for _ in range(300 if big else 40):
         yield {"op": "dict", "type": "D_all", "schema": rnd_schema(0), "n": rng.choice([0, 1, 2])}
+    # 1i. helpers around the table classes: narrow_type, dynamic_concatenate, apply_to_npdataclass
+    for n in (0, 1, 3):
+        for cuts in ([], [1], [1, 2]):
+            yield {"op": "util", "type": "D_num", "what": "dyncat", "n": n, "cuts": [x for x in cuts if x <= n]}
+        yield {"op": "util", "type": "D_num", "what": "apply", "n": n}
+    for txt, ok in (("ACG", True), ("", True), ("AXG", False)):
+        yield {"op": "util", "type": "D_num", "what": "narrow", "text": txt, "ok": ok}
     # 1h. add_fields without a type map: every argument form
     for f in INFER_FORMS:
         yield {"op": "infer_cell", "type": "Interval", "form": f}
@@ -1002,6 +1024,30 @@ def impl(c):
             return {"keys": keys, "leaves": leaves, "roundtrip": bool(ok)}
         except Exception as e:
             return {"err": "raise", "exc": type(e).__name__}
+    if c["op"] == "util":
+        import io, contextlib
+        from bionumpy.bnpdataclass.bnpdataclass import narrow_type, dynamic_concatenate
+        from bionumpy.bnpdataclass.bnpdataclassfunction import apply_to_npdataclass
+        try:
+            if c["what"] == "narrow":
+                from bionumpy.datatypes import SequenceEntry
+                N = narrow_type(SequenceEntry, "sequence", m["pytype"]["dna"])
+                t = N(["a"], [c["text"]])
+                return {"text": t.sequence.tolist(), "alpha": _col_class(m, t.sequence) == "encragged:alpha"}
+            seeds = [5 + i for i in range(c["n"])]
+            t = _table(m, "D_num", [seeds, seeds])
+            rows_of = lambda u: [[int(a), int(b * 4)] for a, b in zip(u.f0.tolist(), u.f1.tolist())]
+            if c["what"] == "dyncat":
+                b = [0] + c["cuts"] + [c["n"]]
+                parts = [t[x:y] for x, y in zip(b[:-1], b[1:])]
+                with contextlib.redirect_stdout(io.StringIO()):
+                    r = dynamic_concatenate(iter(parts))
+                return {"rows": rows_of(r)}
+            plus1 = apply_to_npdataclass("f0")(lambda x: x + 1)
+            r = plus1(t)
+            return {"rows": rows_of(r), "operand": rows_of(t)}
+        except Exception as e:
+            return {"err": "raise", "exc": type(e).__name__}
     if c["op"] == "infer_cell":
         o = infer_outcome(c["form"])
         return {"outcome": o, "natural_class": o in INFER_ALLOWED[c["form"]]}
@@ -1064,6 +1110,10 @@ def agree(c, got, exp):
     if c["op"] == "sort_long":
         return core.canon(got) == core.canon(exp)
     if c["op"] == "dict":
+        return core.canon(got) == core.canon(exp)
+    if c["op"] == "util":
+        if "err" in exp:
+            return isinstance(got, dict) and got.get("err") == "raise"
         return core.canon(got) == core.canon(exp)
     if c["op"] == "infer_cell":
         return isinstance(got, dict) and got.get("natural_class") is True
@@ -1167,6 +1217,8 @@ def finding_key(c, got, exp):
         return "sort_by:long-row"
     if c["op"] == "dict":
         return "dict:" + ("raises-" + str(got.get("exc")) if isinstance(got, dict) and "err" in got else "nested-roundtrip")
+    if c["op"] == "util":
+        return "util:" + c["what"]
     if c["op"] == "infer_cell":
         return "add_fields:inferred-type-" + c["form"]
     if c["op"] == "construct_cell":
